@@ -61,7 +61,7 @@ def once(F, R):
         rem = blocks_of(calls_to(ru, 'atomic_arena::Arena::<T>::remove', suffix=False))
         krem = [bb for bb, t in calls_to(ru, 'std::vec::Vec::<T, A>::remove', suffix=False) if (self_field_of_call(ru, t, 0) or '').endswith('.keys')]
         ok = len(rem) == 1 and len(krem) == 1 and ru.dominates(rem[0], krem[0])
-        R.check(ok, 'B.C17.once', 'keys-remove', 'a removed resource keeps its key (it would be updated through a stale key)', detail='resources.remove(key) ≺ keys.remove(i)')
+        R.check(ok, 'B.C17.once', 'keys-remove', 'a removed resource does not lose its key through the order-preserving Vec::remove (a stale key would be updated; a reordering removal such as swap_remove would update a modulator before the one it reads)', detail='resources.remove(key) ≺ keys.remove(i) (order-preserving)')
 
 
 def mapping(F, R):
